@@ -65,11 +65,12 @@ func runSolverCtx(parent context.Context, name, file string, timeout time.Durati
 // buildQuery assembles the SMT-LIB text for one obligation.
 func buildQuery(u *Unit, o *Oblig, extra []string) string {
 	var sb strings.Builder
+	sb.WriteString("; obligation: " + o.Name + "\n")
 	sb.WriteString("(set-option :produce-models true)\n(set-logic ALL)\n")
 	sb.WriteString(u.Prelude)
 	sb.WriteString("AXIOMS-PLACEHOLDER\n")
 	for _, a := range u.Assumps {
-		if a.seq < o.seq {
+		if a.seq < o.seq && (a.blk < 0 || o.blk < 0 || u.g == nil || u.g.rootReach == nil || u.g.rootReach[a.blk][o.blk]) {
 			sb.WriteString("(assert ")
 			sb.WriteString(a.term)
 			sb.WriteString(")\n")
